@@ -474,7 +474,7 @@ type workerOut struct {
 	Samples     []string         `json:"samples"`
 	StateHashes []string         `json:"-"`
 	CapHit      []string         `json:"caps"`
-	Conc        map[string]any   `json:"concurrency,omitempty"`
+	Conc        []concResult     `json:"concurrency,omitempty"`
 }
 
 const maxViolPerClass = 2
